@@ -4,7 +4,7 @@ import gen_ex, gen_lbuf
 from props import exlib
 from props.c01 import relabel_stream, LBUF_SRCS
 
-PROP = "C02"; MODULES = ["NeatviVerif.Props.C02", "NeatviVerif.Props.C02b", "NeatviVerif.Props.C02c"]; MODE = "ex02"
+PROP = "C02"; MODULES = ["NeatviVerif.Props.C02", "NeatviVerif.Props.C02b", "NeatviVerif.Props.C02c", "NeatviVerif.Props.C02d"]; MODE = "ex02"
 
 def streams(probe, tier, seed, wide):
     rng = Rng(seed)
